@@ -123,6 +123,10 @@ pub fn run_case(case: &Value) -> Value {
     } else {
         compile_and_search_as(&text, &obs["doc"], case.get("input").and_then(|x| x.as_str()).unwrap_or(""))
     };
+    // (the sign bit of a zero in a document is for building it only: the judge reads -0.0 as the number 0)
+    if let Some(d) = obs.get("doc").cloned() {
+        obs.as_object_mut().unwrap().insert("doc".into(), without_sign_of_zero(&d));
+    }
     let m = obs.as_object_mut().unwrap();
     m.insert("out".into(), out);
     if case.get("want_ast").and_then(|x| x.as_bool()).unwrap_or(false) {
